@@ -14,3 +14,12 @@ package filesystem
 //@   opaque
 //@   pure
 //@   ensures result0 == ownerKind(specification)
+
+// Mutagen computes (and optionally creates) a subdirectory of the Mutagen data
+// directory. mdir(name) abstracts the one-component case; how the data
+// directory itself is located is outside the verifier's reach (trusted).
+//@ ufunc mdir(name string) string
+//@ func Mutagen
+//@   opaque
+//@   pure
+//@   ensures result1 == nil && len(pathComponents) == 1 ==> result0 == mdir(pathComponents[0])
